@@ -5,6 +5,7 @@ import io
 import json
 import os
 import shutil
+import stat
 import sys
 import tarfile
 import tempfile
@@ -64,6 +65,8 @@ def make_tree(root):
         with open(os.path.join(root, "src", name), "wb") as f:
             f.write(data)
         files[name] = data
+        # permission bits are part of the tree: some of them are removed by the usual umask when a file is merely created
+        os.chmod(os.path.join(root, "src", name), MODES[len(files) % len(MODES)])
     # member names whose length in the archive ("src/" + name) sits around a multiple of the 512-byte block: GNU long-name / PAX
     # records whose payload ends exactly on, one before and one after a block boundary
     d1, d2 = "p" * 200, "q" * 200
@@ -78,6 +81,9 @@ def make_tree(root):
             f.write(data)
         files[name] = data
     return files
+
+
+MODES = [0o644, 0o664, 0o755, 0o600, 0o666, 0o775, 0o640]
 
 
 def archive(root, fmt):
@@ -100,6 +106,10 @@ def read_tree(dst, files):
     return out
 
 
+def read_modes(root, files):
+    return {name: stat.S_IMODE(os.stat(os.path.join(root, name)).st_mode) for name in files if os.path.isfile(os.path.join(root, name))}
+
+
 KNOWN = set()
 
 POLICIES = {
@@ -114,6 +124,7 @@ POLICIES = {
 
 def search(n):
     root = tempfile.mkdtemp(prefix="c23.")
+    os.umask(0o022)
     try:
         files = make_tree(root)
         for k in range(n):
@@ -131,7 +142,15 @@ def search(n):
                     members = t.getmembers()
                 end_payload = max(m.offset_data + ((m.size + 511) // 512) * 512 for m in members)
                 cut = rng.randint(1, end_payload - 1)
+                ext = [m for m in members if m.offset_data - m.offset > 512]
+                if ext and rng.random() < 0.35:
+                    # inside a GNU long-name / PAX record or the header that follows it
+                    m = rng.choice(ext)
+                    cut = rng.randint(m.offset + 512, m.offset_data - 1)
                 region = "header-or-boundary"
+                for m in ext:
+                    if m.offset + 512 <= cut < m.offset_data:
+                        region = "extended-record"
                 for m in members:
                     if m.isfile() and m.offset_data <= cut < m.offset_data + ((m.size + 511) // 512) * 512 and (cut > m.offset_data or m.size > 0):
                         region = "file-data" if cut > m.offset_data or m.size > 0 else region
@@ -142,6 +161,11 @@ def search(n):
                 data2 = data
             dst = os.path.join(root, f"out{k}")
             os.makedirs(dst)
+            if k % 4 == 1:
+                # the destination already holds one of the files, with other permission bits
+                with open(os.path.join(dst, "f.bin"), "wb") as f:
+                    f.write(b"old")
+                os.chmod(os.path.join(dst, "f.bin"), 0o600)
             err = None
             try:
                 asyncio.run(asyncio.wait_for(extract(data2, POLICIES[pname], dst), 30))
@@ -150,8 +174,14 @@ def search(n):
             except BaseException as e:  # noqa
                 err = type(e).__name__
             got = read_tree(dst, files)
+            got_modes = read_modes(dst, files)
             shutil.rmtree(dst, ignore_errors=True)
             if not truncate:
+                want_modes = read_modes(os.path.join(root, "src"), files)
+                if err is None and got == files and got_modes != want_modes:
+                    wrong = [n for n in files if got_modes.get(n) != want_modes.get(n)]
+                    return {"failure": "permission bits of the copied files differ from the source tree", "format": fmt, "chunking": pname,
+                            "wrong": [(n[:40], oct(want_modes[n]), oct(got_modes.get(n, 0))) for n in wrong[:4]]}
                 if err is not None or got != files:
                     missing = [n for n in files if got.get(n) != files[n]]
                     return {"failure": "complete archive not reproduced exactly", "format": fmt, "chunking": pname, "error": err, "wrong_or_missing": missing[:5]}
@@ -160,6 +190,9 @@ def search(n):
                     # a cut inside a header block or exactly between two members looks like a missing end-of-archive marker;
                     # like CPython's tarfile the reader ends the archive silently (recorded finding, see known_findings.json)
                     KNOWN.add("KF-C23-header-boundary-truncation")
+                elif err is None and region == "extended-record":
+                    return {"failure": "archive truncated inside a long-name / PAX record (or the header that follows it) was accepted silently", "format": fmt,
+                            "chunking": pname, "cut_at": cut, "archive_len": len(data), "partial_or_missing": [n for n in files if got.get(n) != files[n]][:5]}
                 elif err is None:
                     return {"failure": "archive truncated inside file data was accepted silently", "format": fmt, "chunking": pname, "cut_at": cut,
                             "archive_len": len(data), "partial_or_missing": [n for n in files if got.get(n) != files[n]][:5]}
